@@ -57,7 +57,9 @@ def _replay(run, name, recs, pid_key, ops_file, seeds):
                 run.violation("%s/parse/replay/%s" % (pid_key, o["verdict"]),
                               "parse_expression(%r): %s; grammar verdict %s" % (o["text"], o["why"], o["verdict"]),
                               {"family": "parse", "ops_file": ops_file, "seed": sd, "record": rec, "text": o["text"], "got_ok": o["got_ok"], "got_ast": o["got_ast"], "panic": o["panic"]})
-        run.leg("R:Pratt/" + name, seed=sd, replayed=s["replayed"], unrealizable=s["unrealizable"], by_verdict=s["by_verdict"], mismatches=sum(1 for o in out if "mismatch" in o))
+        run.leg("R:Pratt/" + name, seed=sd, replayed=s["replayed"], unrealizable=s["unrealizable"], by_verdict=s["by_verdict"], mismatches=sum(1 for o in out if "mismatch" in o),
+                error_variant_agree=s.get("variant_agree", 0), error_variant_drift=s.get("variant_differ", 0), error_variants=s.get("by_variant", {}),
+                drift_examples=[{"text": o["text"], "spec": o["spec"], "impl": o["impl"]} for o in out if "variant_drift" in o][:3])
     return total_bad
 
 
